@@ -17,6 +17,7 @@ func TestC03(t *testing.T) {
 
 // arrival process of one phase of the workload
 const (
+	phReturn    = "return-just-short-of-the-refill-time"
 	phBurst     = "burst-at-one-instant"
 	phSustained = "sustained"
 	phPaced     = "exact-pacing"
@@ -28,6 +29,7 @@ const (
 func c03prop(r *simkit.Run) {
 	rt := r.T
 	guardRun = r
+	drawSrcBase(r.T)
 	inDomain := rapid.IntRange(0, 9).Draw(rt, "domain") != 0
 	maxAvg := int64(rapid.SampledFrom([]int{3, 10, 50, 1000}).Draw(rt, "avg-scale"))
 	rates := drawRates(rt, inDomain, maxAvg)
@@ -159,7 +161,17 @@ func c03prop(r *simkit.Run) {
 	for opsLeft > 0 {
 		src := rapid.IntRange(0, nsrc-1).Draw(rt, "src")
 		rate := rates[rapid.IntRange(0, len(rates)-1).Draw(rt, "phase-rate")]
-		switch rapid.SampledFrom([]string{phBurst, phSustained, phSustained, phPaced, phMixed, phMixed, phIdle, phConc, "extractor-toggle"}).Draw(rt, "phase") {
+		switch rapid.SampledFrom([]string{phBurst, phSustained, phSustained, phPaced, phMixed, phMixed, phIdle, phConc, "extractor-toggle", phReturn}).Draw(rt, "phase") {
+		case phReturn:
+			// the source takes its whole burst, stays away for just short of the time the burst needs to come back
+			// (the limiter must still remember it), and asks for the whole burst again
+			request(src, rate.burst)
+			gap := time.Duration(rate.burst)*rate.perToken() - time.Duration(rapid.Int64Range(0, int64(time.Second)).Draw(rt, "short-of-refill"))
+			if gap > 0 {
+				advance(gap)
+			}
+			request(src, rate.burst)
+			request(src, 1)
 		case "extractor-toggle":
 			if dynamic {
 				extractorMode = rapid.IntRange(0, 2).Draw(rt, "extractor-mode")
